@@ -140,6 +140,8 @@ func faultPoints(sc scenario) []fault {
 		}
 		fs = append(fs, fault{Kind: "bad-syntax", Pkg: p.Dir, At: 0}, fault{Kind: "bad-syntax", Pkg: p.Dir, At: nt - 1})
 		fs = append(fs, fault{Kind: "bad-syntax", Pkg: p.Dir, At: nt - 1, Others: "tail"})
+		// the error comes before the generator has rendered or deferred anything for the package
+		fs = append(fs, fault{Kind: "type-error", Pkg: p.Dir, At: 0, Others: "early"}, fault{Kind: "type-error", Pkg: p.Dir, At: nt - 1, Others: "early"})
 		for _, oth := range []string{"ignore", "skip"} {
 			fs = append(fs, fault{Kind: "bad-syntax", Pkg: p.Dir, At: 0, Others: oth}, fault{Kind: "bad-syntax", Pkg: p.Dir, At: nt - 1, Others: oth},
 				fault{Kind: "type-error", Pkg: p.Dir, At: 0, Others: oth}, fault{Kind: "type-error", Pkg: p.Dir, At: nt - 1, Others: oth})
@@ -195,6 +197,9 @@ func gens(sc scenario, f fault, salt string) []specgen.GenSpec {
 		switch f.Kind {
 		case "type-error":
 			bad.Pkg[p] = specgen.Behav{Mode: "error", At: f.At, Salt: salt, Defers: 1, Others: f.Others}
+			if f.Others == "early" {
+				bad.Pkg[p] = specgen.Behav{Mode: "error-early", At: f.At, Salt: salt}
+			}
 		case "defer-error":
 			bad.Pkg[p] = specgen.Behav{Mode: "defer-error", At: f.At, Salt: salt, Defers: 1}
 		case "bad-syntax":
